@@ -1,7 +1,7 @@
 """C07 - every awaited runtime future resolves exactly once with its own result (bounded)."""
 from __future__ import annotations
 
-from harness.rt_entry import ob, sim  # noqa: F401
+from harness.rt_entry import ob, obs_sharded, sim  # noqa: F401
 
 PROPERTY = 'C07'
 LEVEL = 'model_checking'
@@ -29,8 +29,9 @@ ASSUMPTIONS = [
     'cancel is a pre-emption point for the two threads of a worker',
 ]
 BOUNDS = {
-    'quick': 'topologies flat1, flat2 (server + 1-2 workers), mgr2x1; trees submit, map2, next3, nested, two_rev; '
-             'all schedules with <=2 deviations (rank<=2) from the baseline (message level); line level: flat1, '
+    'quick': 'topologies flat1, flat2 (server + 1-2 workers), mgr2x1; trees submit, map2, next3, nested, two_rev, next_mix; '
+             'all schedules with <=2 deviations (rank<=2) from the baseline at message level (flat2 with next3/nested/'
+             'two_rev and mgr2x1: <=1 deviation); line level: flat1, '
              'trees submit/map2 with <=1 deviation at every source line of the listed Worker methods',
     'thorough': 'adds flat3, mgr1x2, mgr2x2, trees map3/nested_map, <=3 deviations on the small scenarios, line level '
                 'with <=2 deviations',
@@ -42,12 +43,15 @@ OUTSIDE = ('more than 3 workers per node, depth > 2, pre-emption inside a byteco
 def obligations(tier: str) -> list[dict]:
     obs = []
     if tier == 'quick':
-        for topo in ('flat1', 'flat2'):
-            for sh in ('submit', 'map2', 'next3', 'nested', 'two_rev'):
-                obs.append(ob('msg/%s/%s/K2' % (topo, sh), topo, [sh], 'tables', 2, 200))
+        for sh in ('submit', 'map2', 'next3', 'nested', 'two_rev'):
+            obs.append(ob('msg/flat1/%s/K2' % sh, 'flat1', [sh], 'tables', 2, 200))
+        for sh in ('submit', 'map2'):
+            obs.extend(obs_sharded(3, 'msg/flat2/%s/K2' % sh, 'flat2', [sh], 'tables', 2, 200))
+        for sh in ('next3', 'nested', 'two_rev'):        # two deviations on these trees: thorough tier
+            obs.append(ob('msg/flat2/%s/K1' % sh, 'flat2', [sh], 'tables', 1, 200))
         for sh in ('map2', 'nested'):
             obs.append(ob('msg/mgr2x1/%s/K1' % sh, 'mgr2x1', [sh], 'tables', 1, 200))
-        obs.append(ob('msg/flat2/next_mix/K2', 'flat2', ['next_mix'], 'tables', 2, 300))
+        obs.extend(obs_sharded(4, 'msg/flat2/next_mix/K2', 'flat2', ['next_mix'], 'tables', 2, 200))
         for sh in ('submit', 'map2', 'next3', 'nested'):
             obs.append(ob('line/flat1/%s/K1' % sh, 'flat1', [sh], 'tables', 1, 200, line=True, maxrank=1))
         for sh in ('two_seq', 'map2', 'next_mix', 'nested', 'two_rev'):
